@@ -7,6 +7,7 @@ pub mod dtls_mitm;
 pub mod hostile;
 pub mod hostile_gen;
 pub mod hostile_mut;
+pub mod hostile_tcp;
 pub mod icestun;
 pub mod latch;
 pub mod pc_close;
@@ -34,6 +35,7 @@ pub async fn dispatch(ctx: &Ctx) {
         "srtp_gate" => srtpgate::run(ctx).await,
         "srtp_gate_pc" => srtpgate_pc::run(ctx).await,
         "hostile" => hostile::run(ctx).await,
+        "hostile_tcp" => hostile_tcp::run(ctx).await,
         other => ctx.violate("HARNESS.scenario", format!("unknown scenario {other}")),
     }
 }
@@ -58,7 +60,7 @@ pub fn generate(prop: &str, seed: u64, idx: u64, tier: Tier) -> Option<Plan> {
         "C10" => Some(pc_connect::generate(prop, seed, idx, tier)),
         "C17" => Some(pc_close::generate(prop, seed, idx, tier)),
         "C14" => Some(c14_generate(prop, seed, idx, tier)),
-        "C07" => Some(hostile::generate(prop, seed, idx, tier)),
+        "C07" => Some(c07_generate(prop, seed, idx, tier)),
         _ => None,
     }
 }
@@ -76,7 +78,7 @@ pub fn budget(prop: &str, tier: Tier) -> u64 {
         ("C10", t) => pc_connect::budget(prop, t),
         ("C17", t) => pc_close::budget(prop, t),
         ("C14", t) => srtpgate::budget(prop, t) + srtpgate_pc::budget(prop, t),
-        ("C07", t) => hostile::budget(prop, t),
+        ("C07", t) => hostile::budget(prop, t) + hostile_tcp::budget(prop, t),
         ("C01", Tier::Quick) => 40_000,
         ("C01", Tier::Thorough) => 600_000,
         ("C12", Tier::Quick) => 6000,
@@ -100,6 +102,20 @@ fn c14_generate(prop: &str, seed: u64, idx: u64, tier: Tier) -> Plan {
         srtpgate::generate(prop, seed, block * a + off, tier)
     } else {
         srtpgate_pc::generate(prop, seed, block * b + (off - a), tier)
+    }
+}
+
+/// C07 is decided by two scenarios that share one index space (same layout as C14 / C02): within every block of
+/// `hostile::budget + hostile_tcp::budget` indices the first `hostile::budget` belong to `hostile` (block 0 = its
+/// enumerated core + swarm, unchanged) and the following `hostile_tcp::budget` to `hostile_tcp` (hostile bytes on
+/// ICE-TCP streams; its first 120 indices enumerate shape x phase x end x listener kind).
+fn c07_generate(prop: &str, seed: u64, idx: u64, tier: Tier) -> Plan {
+    let (a, b) = (hostile::budget(prop, tier), hostile_tcp::budget(prop, tier));
+    let (block, off) = (idx / (a + b), idx % (a + b));
+    if off < a {
+        hostile::generate(prop, seed, block * a + off, tier)
+    } else {
+        hostile_tcp::generate(prop, seed, block * b + (off - a), tier)
     }
 }
 
